@@ -22,7 +22,7 @@ type profile struct {
 	pOtherID, pEmptyRep, pShareIdent, pNeutralJoin float64
 	sorts                                          []string
 	pcs                                            []int
-	finale                                         bool // complete the exchange at the end (C01)
+	finale                                         bool    // complete the exchange at the end (C01)
 	pWide                                          float64 // scripted prefix: many single-entry writers + one long chain merged into one log
 }
 
@@ -406,12 +406,40 @@ func runLogProp(cfg logRunCfg) func(seed int64, tier string, outDir string) *res
 				res.Samples = append(res.Samples, json.RawMessage(js))
 			}
 		}
+		// scenario monitors built on LogOptions.Entries (forged entries, shared entry maps)
+		if replayFile == "" && (cfg.prop == "C06" || cfg.prop == "C05" || cfg.prop == "C03" || cfg.prop == "C02") {
+			st := &c06Stats{kinds: map[string]int{}}
+			xf := func(prop, mon, key, detail string, c interface{}) {
+				if prop == cfg.prop || contains(cfg.alsoReport, prop) {
+					perKey[key]++
+					if perKey[key] <= 5 {
+						res.Failures = append(res.Failures, monitorFailure{Property: prop, Monitor: mon, Key: key, Detail: detail, Case: c})
+					}
+				}
+			}
+			xr := rand.New(rand.NewSource(seed + 7919))
+			nf, na := 40, 25
+			if tier == "thorough" {
+				nf, na = 600, 300
+			}
+			if cfg.prop == "C06" || cfg.prop == "C02" {
+				runForgeScenarios(xr, nf, st, xf)
+			}
+			if cfg.prop != "C06" {
+				runAliasScenarios(xr, na, st, xf)
+			}
+			res.Stats["forged_logs_joined"] = st.forged
+			res.Stats["forged_logs_rejected"] = st.rejected
+			res.Stats["forged_kinds"] = st.kinds
+			res.Stats["shared_entry_map_runs"] = st.aliasRuns
+			res.Evaluations0 = st.forged + st.aliasRuns
+		}
 		if len(res.Samples) == 0 {
 			res.Samples = []interface{}{"(no non-trivial history)"}
 		}
 		res.CaseFiles = writeShards(outDir, cfg.prop, header, []*caseList{hl}, cfg.perShard)
 		res.ModelCases = len(hl.items)
-		res.Evaluations = len(gens)
+		res.Evaluations = len(gens) + res.Evaluations0
 		res.Distinct = len(shapes)
 		res.Rule = "random multi-replica histories (profile " + prof.name + "): 2-5 replicas over 1-4 identities (shared identities with prob. " +
 			fmt.Sprint(prof.pShareIdent) + "), appends with pointer counts " + fmt.Sprint(prof.pcs) + ", joins (bounded with prob. " + fmt.Sprint(prof.pBounded) +
@@ -496,7 +524,10 @@ func init() {
 	p6.pDenyLog = 0.5
 	p6.pSetID = 0.06
 	register("C06", runLogProp(logRunCfg{prop: "C06", profile: p6, nQuick: 150, nThorough: 3000, perShard: 12}))
-	register("C03", runLogProp(logRunCfg{prop: "C03", profile: p, nQuick: 150, nThorough: 3000, perShard: 12}))
+	p3 := p
+	p3.name = "base+acl"
+	p3.pDenyLog = 0.2
+	register("C03", runLogProp(logRunCfg{prop: "C03", profile: p3, nQuick: 150, nThorough: 3000, perShard: 12}))
 	register("C01", runLogProp(logRunCfg{prop: "C01", profile: p, nQuick: 150, nThorough: 3000, perShard: 12}))
 	p4 := p
 	p4.name = "append-heavy"
@@ -504,7 +535,10 @@ func init() {
 	p4.pSetID = 0.05
 	p4.pWide = 0.3
 	register("C04", runLogProp(logRunCfg{prop: "C04", profile: p4, nQuick: 150, nThorough: 3000, perShard: 12}))
-	register("C05", runLogProp(logRunCfg{prop: "C05", profile: p, nQuick: 150, nThorough: 3000, perShard: 12}))
+	p5 := p
+	p5.name = "base+acl"
+	p5.pDenyLog = 0.3
+	register("C05", runLogProp(logRunCfg{prop: "C05", profile: p5, nQuick: 150, nThorough: 3000, perShard: 12}))
 	p16 := p
 	p16.name = "bounded-joins"
 	p16.pBounded = 0.45
